@@ -110,15 +110,16 @@ class Ctx:
             "wall_s": round(wall, 2),
             "violations": len(self.violations),
         }
-        (VERIF / "evidence").mkdir(exist_ok=True)
-        with open(VERIF / "evidence" / f"{self.pid}.json", "w") as fh:
+        evdir = Path(os.environ.get("VERIF_EVIDENCE_DIR", VERIF / "evidence"))   # mutant runs write elsewhere
+        evdir.mkdir(exist_ok=True)
+        with open(evdir / f"{self.pid}.json", "w") as fh:
             json.dump(ev, fh, indent=1, default=_js)
             fh.write("\n")
         for kid, n in sorted(self.known_hits.items()):
             k = next(k for k in self.known if k["id"] == kid)
             print(f"KNOWN-FINDING: property={k['property']} {k['what']} [{kid}; {n} case(s) this run]")
         if self.violations:
-            rdir = VERIF / "replays" / self.pid
+            rdir = Path(os.environ.get("VERIF_REPLAY_DIR", VERIF / "replays")) / self.pid
             rdir.mkdir(parents=True, exist_ok=True)
             seen = set()
             for i, v in enumerate(self.violations[:20]):
